@@ -32,6 +32,8 @@ def gen(rng, tier):
     w['fail'] = rng.choice([0, 0, 1])
     w['negtimeout'] = rng.choice([0, 0, 1])
     w['wait'] = rng.choice([0, 2, 3])
+    w['fire'] = rng.choice([0, 0, 3, 12])
+    prof.top_timeouts = rng.choice([2, 2, 8])
     w['succeed'] = rng.choice([0, 2, 3])
     prof.handlers = ['cont', 'cont', 'rewait', 'ret', 'other', 'raise', 'none']
     case = gen_program(rng, prof)
